@@ -99,6 +99,8 @@ class PreprocessModel:
             v = args[0]
             if isinstance(v, _S) and v._kind == "KnownValue" and isinstance(v._attrs["val"], (tuple, list)):
                 return [known(x) for x in v._attrs["val"]]
+            if isinstance(v, _S) and v._kind == "GenericValue" and v._attrs["typ"] is list:
+                return v._attrs["args"][0]  # a list of unknown length: the type of its elements
             raise AnchorError("preprocess model: *argument that is not a tuple / list literal")
 
         def actual_arguments(args: List[Any], kwargs: Any = None) -> Any:
@@ -186,6 +188,8 @@ class PreprocessModel:
                 args.append((composite([known(tuple(item[1]))]), Sym("ARGS")))
             elif item[0] == "dstar":
                 args.append((composite([known(dict(item[1]))]), Sym("KWARGS")))
+            elif item[0] == "ustar":
+                args.append((composite([_S("GenericValue", typ=list, args=(typed(int),))]), Sym("ARGS")))
             else:
                 raise AnchorError(f"preprocess model: unknown call item {item!r}")
         fn = self.module_defs["preprocess_args"]
@@ -268,9 +272,29 @@ def call_source(call: Sequence[Item]) -> str:
             parts.append(f"{item[1]}={item[2]!r}")
         elif item[0] == "star":
             parts.append("*" + repr(tuple(item[1])))
+        elif item[0] == "ustar":
+            parts.append("*xs")
         else:
             parts.append("**" + repr(dict(item[1])))
     return "f(" + ", ".join(parts) + ")"
+
+
+def expansion_outcomes(sig: Sequence[Param], call: Sequence[Item], max_len: int = 4) -> Optional[List[str]]:
+    """A call with `*xs` items (xs: list[int] of unknown length): CPython's outcome for every
+    assignment of a length 0..max_len to each of them, in lexicographic order of the lengths."""
+    import itertools
+
+    slots = [i for i, item in enumerate(call) if item[0] == "ustar"]
+    out: List[str] = []
+    for lens in itertools.product(range(max_len + 1), repeat=len(slots)):
+        concrete = list(call)
+        for i, n in zip(slots, lens):
+            concrete[i] = ("star", (0,) * n)
+        r = cpython_outcome(sig, concrete)
+        if r is None:
+            return None
+        out.append(r if all(lens) or not slots else r + ":with-empty")
+    return out
 
 
 _FUNCS: Dict[str, Any] = {}
